@@ -168,7 +168,13 @@ WeightDomain(r) ==
              \A i \in 1..Len(cols) :
                 LET s == FSum([k \in 1..W.shape[cax + 1] |-> Get(W, InsAt(cols[i], cax, k - 1))])
                 IN  IF W.shape[cax + 1] = 1 THEN TRUE     \* tied over classes by a tuple: mean over classes
-                    ELSE FLe(FAbs(FSub(s, FOne)), tol)>> >>
+                    ELSE FLe(FAbs(FSub(s, FOne)), tol)>>,
+        \* r.rowsum: sum over classes of the posterior the last M-step consumed (last E-step, or the initialisation).
+        \* Every observation's posterior either sums to one or is entirely zero (no class both active and of non-zero
+        \* weight: the documented corner of the source-activity mask); anything in between is a broken E-step.
+        \* (Keeps the recorded weight_sum findings specific: they cover all-zero observations only.)
+        <<"posterior_rows_zero_or_one", \A i \in 1..Len(r.rowsum.data) :
+             LET x == r.rowsum.data[i] IN IsFlt(x) /\ (FLe(FAbs(x), tol) \/ FLe(FAbs(FSub(x, FOne)), tol))>> >>   \* zero up to K eps clipping
 CacgDomain(r) ==
   LET U == DField(r, "cacg_eigenvectors").t lam == DField(r, "cacg_eigenvalues").t
       rows == LastAxisRows(lam)
